@@ -111,6 +111,27 @@ func genPlanC08(def *PropDef, tier string, seed uint64, run int64) *Plan {
 		plan.Sched = genSched(rng, len(plan.Tasks))
 		return plan
 	}
+	if pre >= 4 && rng.Chance(12) {
+		// several deleters on the same (old) segments, a reader, maybe a publisher
+		plan.Tasks = nil
+		nd := rng.Range(2, 3)
+		for t := 0; t < nd; t++ {
+			var script []Op
+			for c, nc := 0, rng.Range(1, 2); c < nc; c++ {
+				script = append(script, Op{K: "del", Sel: &OffSel{Kind: "abs", Abs: []int64{rng.I64(0, int64(pre)-1)}}})
+			}
+			if rng.Chance(50) {
+				script = append(script, Op{K: "get", A: rng.I64(0, int64(pre)-1)})
+			}
+			plan.Tasks = append(plan.Tasks, script)
+		}
+		plan.Tasks = append(plan.Tasks, []Op{{K: "consume", A: -2, B: 4}, {K: "consume", A: rng.I64(0, int64(pre)), B: 3}})
+		if rng.Chance(40) {
+			plan.Tasks = append(plan.Tasks, []Op{{K: "pub", Msgs: []PMsg{{Key: sKeys[1], Val: sVal(8, 0, 0), TMode: 2}}}})
+		}
+		plan.Sched = genSched(rng, len(plan.Tasks))
+		return plan
+	}
 	for t := 0; t < nt; t++ {
 		var script []Op
 		nc := rng.Range(1, 4)
